@@ -496,6 +496,11 @@ func H_SignalAcrossCall() {
 	}[zv.Choose(3)]
 	nested := zv.Choose(2) == 1 // the statement sits inside a branch of the method body
 	b := zv.Bool("B")
+	where := zv.Choose(3) // method body / handler of the method body / constructor body
+	if where > 0 {
+		signalElsewhere(stmt, loop, where, b)
+		return
+	}
 	body := "    （显示：1）\n"
 	if nested {
 		body += "    如果 B：\n        " + stmt + "\n"
@@ -519,6 +524,38 @@ func H_SignalAcrossCall() {
 		return
 	}
 	zv.Reach("plain")
+	n, ok := res.(*value.Number)
+	zv.Assert(err == nil && ok && n.GetValue() == 5, "without the signal the program runs to its end\n"+src)
+}
+
+// signalElsewhere: the misplaced 结束循环 / 继续循环 sits in the 拦截 handler of a
+// method body (where == 1) or in a constructor body (where == 2).
+func signalElsewhere(stmt, loop string, where int, b bool) {
+	var def, call string
+	if where == 1 {
+		def = "如何F？\n    （显示：1）\n    令W = 1 / 0\n    输出 7\n    拦截异常：\n        如果 B：\n            " + stmt + "\n        输出 8\n"
+		call = "    令R = （F）\n"
+	} else {
+		def = "定义盒：\n    其值设为0\n如何新建盒？\n    （显示：1）\n    如果 B：\n        " + stmt + "\n    其值 = 8\n"
+		call = "    令O = （新建盒）\n    令R = O之值\n"
+	}
+	src := "输入B\n" + def + loop + "    （显示：10）\n" + call + "    （显示：R）\n（显示：20）\n输出 5"
+	installTrace()
+	var res r.Element
+	var err error
+	var pn interface{}
+	func() {
+		defer func() { pn = recover() }()
+		res, err = exec.NewInterpreter("v").LoadScript([]rune(src)).Execute(r.ElementMap{"B": value.NewBool(b)})
+	}()
+	zv.Assert(pn == nil, "signal across call: no panic\n"+src)
+	if b {
+		zv.Reach("signal-elsewhere")
+		zv.Assert(err != nil, stmt+" in a handler / constructor body outside any loop of that body does not act on a loop of the caller (the call fails)\n"+src)
+		zv.Assert(len(traceSink) == 2 && traceSink[0] == 10 && traceSink[1] == 1, "nothing runs after the misplaced "+stmt+"\n"+src)
+		return
+	}
+	zv.Reach("plain-elsewhere")
 	n, ok := res.(*value.Number)
 	zv.Assert(err == nil && ok && n.GetValue() == 5, "without the signal the program runs to its end\n"+src)
 }
